@@ -197,6 +197,8 @@ theorem pure_all (c : Cfg) (f : Nat) :
       simp only [parsePrefix] at h
       split at h
       · simp at h
+      split at h
+      · simp at h
       all_goals (rename_i hh; have := prefix_on_chain c a rest _ ha hr hh; simp at this)
       obtain ⟨rfl, rfl, rfl⟩ := this
       obtain ⟨rfl, rfl⟩ := collateCheck_ok h
